@@ -60,13 +60,31 @@ func (p *c08) Gen(i int, r *rand.Rand) any {
 		if _, err := parseAs(src, c.lang(), true); err != nil {
 			continue
 		}
+		if r.IntN(5) == 0 { // blank or whitespace-only first lines: a line ends before any token was read
+			pre := []string{"\n", "  \n", "\t\n\n", " \n"}[r.IntN(4)]
+			if _, err := parseAs(append([]byte(pre), src...), c.lang(), true); err == nil {
+				src = append([]byte(pre), src...)
+			}
+		}
 		c.Src = src
 		c.SrcQ = strconv.Quote(string(src))
 		rc := &ReuseCase{SynCase: *c}
 		for k := r.IntN(5); k > 0; k-- {
 			h := p.corpus.Snippets[r.IntN(len(p.corpus.Snippets))]
-			if r.IntN(3) == 0 && len(p.corpus.ErrCases) > 0 {
-				h = p.corpus.ErrCases[r.IntN(len(p.corpus.ErrCases))].In
+			switch r.IntN(6) {
+			case 0, 1:
+				if len(p.corpus.ErrCases) > 0 {
+					h = p.corpus.ErrCases[r.IntN(len(p.corpus.ErrCases))].In
+				}
+			case 2: // cut anywhere: errors in the middle of literals, quotes, here-documents, arrays
+				if len(h) > 1 {
+					h = h[:1+r.IntN(len(h)-1)]
+				}
+			case 3: // the same with a here-document still pending when the error strikes
+				h = []string{"cat <<EOF ", "cat <<EOF; ", "a <<-X | ", "<<'Q' "}[r.IntN(4)] + h
+				if len(h) > 12 {
+					h = h[:10+r.IntN(len(h)-10)]
+				}
 			}
 			rc.History = append(rc.History, []byte(h))
 			rc.HistOps = append(rc.HistOps, []string{"Parse", "StmtsSeq", "StmtsSeq-stop1", "WordsSeq", "WordsSeq-stop1", "Document", "Arithmetic", "InteractiveSeq-stop1"}[r.IntN(8)])
@@ -145,6 +163,25 @@ func useParser(p *syntax.Parser, op string, in []byte) {
 			break
 		}
 	}
+}
+
+// interactiveTrace feeds lines one per Read and records, per callback, how many
+// lines had been fed, whether the parser called itself incomplete and how many
+// statements were handed over.
+func interactiveTrace(ip *syntax.Parser, lines [][]byte) (trace string, delivered []*syntax.Stmt, err error) {
+	lr := &lineReader{lines: append([][]byte{}, lines...)}
+	var sb strings.Builder
+	for ss, e := range ip.InteractiveSeq(lr) {
+		if e != nil {
+			return sb.String(), delivered, e
+		}
+		inc := ip.Incomplete()
+		fmt.Fprintf(&sb, "(%d,%v,%d)", lr.fed, inc, len(ss))
+		if !inc {
+			delivered = append(delivered, ss...)
+		}
+	}
+	return sb.String(), delivered, nil
 }
 
 func (p *c08) Run(payload any) mon.Result {
@@ -229,10 +266,44 @@ func (p *c08) Run(payload any) mon.Result {
 	// (c) reuse
 	if len(c.History) > 0 {
 		res.Evals++
-		rp := newParser()
-		for i, h := range c.History {
-			useParser(rp, c.HistOps[i], h)
+		recov := []int{0, 0, 1, 5}[c.Extra/2%4] // the reused parser and its fresh twin may also recover errors
+		newParserC := func() *syntax.Parser {
+			if recov == 0 {
+				return newParser()
+			}
+			return syntax.NewParser(syntax.Variant(lang), syntax.KeepComments(keep), syntax.RecoverErrors(recov))
+		}
+		used := func() *syntax.Parser {
+			up := newParserC()
+			for i, h := range c.History {
+				useParser(up, c.HistOps[i], h)
+			}
+			return up
+		}
+		rp := used()
+		for i := range c.History {
 			res.Count("history:"+c.HistOps[i], 1)
+		}
+		// streaming and interactive use of a reused parser: same statements, same
+		// Incomplete() answers at every callback as a fresh one
+		t1, d1, e1x := interactiveTrace(newParserC(), lines)
+		t2, d2, e2x := interactiveTrace(used(), lines)
+		if t1 != t2 || stmtsCanon(d1) != stmtsCanon(d2) || fmt.Sprint(e1x) != fmt.Sprint(e2x) {
+			res.Fail("reused-interactive-differs", fmt.Sprintf("lang=%s src=%s history=%q ops=%v recover=%d\nfresh  (lines fed, incomplete, statements) per callback: %s err=%v\nreused: %s err=%v", c.Lang, c.SrcQ, c.History, c.HistOps, recov, t1, e1x, t2, e2x))
+			return res
+		}
+		var s2 []*syntax.Stmt
+		var s2err error
+		for st, err := range used().StmtsSeq(bytes.NewReader(c.Src)) {
+			if err != nil {
+				s2err = err
+				break
+			}
+			s2 = append(s2, st)
+		}
+		if s2err != nil || stmtsCanon(s2) != want {
+			res.Fail("reused-stmtsseq-differs", fmt.Sprintf("lang=%s src=%s history=%q ops=%v recover=%d\nerr=%v\n%s", c.Lang, c.SrcQ, c.History, c.HistOps, recov, s2err, oracle.FirstDiff(want, stmtsCanon(s2))))
+			return res
 		}
 		f2, err := rp.Parse(bytes.NewReader(c.Src), "")
 		if err != nil {
@@ -245,7 +316,7 @@ func (p *c08) Run(payload any) mon.Result {
 		}
 		// an erroring input under test too: same error from reused and fresh
 		last := c.History[len(c.History)-1]
-		_, e1 := newParser().Parse(bytes.NewReader(last), "")
+		_, e1 := newParserC().Parse(bytes.NewReader(last), "")
 		_, e2 := rp.Parse(bytes.NewReader(last), "")
 		if fmt.Sprint(e1) != fmt.Sprint(e2) {
 			res.Fail("reused-parser-error-differs", fmt.Sprintf("lang=%s input=%q\nfresh: %v\nreused: %v", c.Lang, last, e1, e2))
